@@ -27,6 +27,10 @@ import (
 )
 
 func main() {
+	if len(os.Args) > 1 && os.Args[1] == "-facts" {
+		writeTreeFacts()
+		return
+	}
 	prop := os.Getenv("VERIF_PROP")
 	if prop != "C02" {
 		prop = "C01"
